@@ -5,6 +5,7 @@ pipeline builds (`RuschmSpec/Loc.lean`), stage by stage.
 import RuschmSpec.Loc
 import RuschmProofs.StoreLemmas
 import RuschmProofs.MacroLemmas
+import RuschmProofs.LexLemmas
 
 namespace Ruschm
 
@@ -2618,5 +2619,1262 @@ theorem Statement.loc_rlocs (s : Statement) : s.loc.as .node ⊆ s.rlocs := by
   | syntaxDef n r l => simp [Statement.loc, Statement.rlocs]
   | expr e => simpa [Statement.loc, Statement.rlocs] using Expr.loc_rlocs e
   | libraryDef n d l => simp [Statement.loc, Statement.rlocs]
+
+/-! ## the reader: data take their positions from the tokens consumed -/
+
+namespace ReadLoc
+open Read
+
+/-- the positions the parser state holds: `Parser.location` and the position of the current token -/
+def here (s : PState) : List Pos :=
+  s.loc.toList ++ (match s.cur with | some t => t.loc.toList | none => [])
+
+/-- every position an error raised from state `s` may carry -/
+def errs (s : PState) : List Pos := here s ++ (tokLocs s.toks ++ s.lexErr.toList)
+
+/-- the reader went from `s` to `s'` consuming the tokens `used` -/
+structure Steps (s s' : PState) (used : List LToken) : Prop where
+  toks : s.toks = used ++ s'.toks
+  lexErr : s'.lexErr = s.lexErr
+  here : here s' ⊆ here s ++ tokLocs used
+
+theorem tokLocs_append (a b : List LToken) : tokLocs (a ++ b) = tokLocs a ++ tokLocs b := by
+  simp [tokLocs]
+
+theorem Steps.refl (s : PState) : Steps s s [] := ⟨by simp, rfl, by simp [tokLocs]⟩
+
+theorem Steps.trans {s₁ s₂ s₃ : PState} {u₁ u₂ : List LToken} (h₁ : Steps s₁ s₂ u₁) (h₂ : Steps s₂ s₃ u₂) :
+    Steps s₁ s₃ (u₁ ++ u₂) := by
+  refine ⟨by rw [h₁.toks, h₂.toks]; simp, h₂.lexErr.trans h₁.lexErr, ?_⟩
+  intro x hx
+  have := h₂.here hx
+  rw [tokLocs_append]
+  rcases List.mem_append.1 this with h | h
+  · have := h₁.here h
+    simp only [List.mem_append] at this ⊢
+    rcases this with h | h
+    · exact Or.inl h
+    · exact Or.inr (Or.inl h)
+  · simp only [List.mem_append]; exact Or.inr (Or.inr h)
+
+theorem Steps.errs {s s' : PState} {u : List LToken} (h : Steps s s' u) : errs s' ⊆ errs s := by
+  intro x hx
+  simp only [ReadLoc.errs, List.mem_append] at hx ⊢
+  rcases hx with hx | hx | hx
+  · have := h.here hx
+    simp only [List.mem_append] at this
+    rcases this with h' | h'
+    · exact Or.inl h'
+    · right; left; rw [h.toks, tokLocs_append]; simp [h']
+  · right; left; rw [h.toks, tokLocs_append]; simp [hx]
+  · right; right; rw [← h.lexErr]; exact hx
+
+/-- `s` with the current token forgotten (the first step of `currentDatum`) -/
+theorem here_drop_cur (s : PState) : here { s with cur := none } ⊆ here s := by
+  simp [here]
+
+theorem advance_ok {s s' : PState} (h : advance s = .ok s') :
+    ∃ used, Steps s s' used ∧ here s' ⊆ tokLocs used ∧
+      (∀ t, s'.cur = some t → used = [t]) := by
+  unfold advance at h
+  cases ht : s.toks with
+  | cons t rest =>
+    simp only [ht] at h
+    cases h
+    refine ⟨[t], ⟨by simp [ht], rfl, ?_⟩, ?_, by simp⟩
+    · simp [here, tokLocs]
+    · simp [here, tokLocs]
+  | nil =>
+    simp only [ht] at h
+    split at h
+    · cases h
+    · cases h
+      exact ⟨[], ⟨by simp [ht], rfl, by simp [here]⟩, by simp [here], by simp⟩
+
+theorem advance_err {s : PState} {e : SErr} (h : advance s = .error e) : e.2.toList ⊆ errs s := by
+  unfold advance at h
+  split at h
+  · cases h
+  · split at h
+    · rename_i e' he; cases h; simp [errs, he]
+    · cases h
+
+theorem advanceUnwrap_ok {s s' : PState} {t : LToken} (h : advanceUnwrap s = .ok (t, s')) :
+    Steps s s' [t] ∧ s'.cur = some t ∧ here s' ⊆ tokLocs [t] := by
+  unfold advanceUnwrap at h
+  cases ha : advance s with
+  | error e => simp [ha, bind, Except.bind] at h
+  | ok s1 =>
+    simp only [ha, bind, Except.bind] at h
+    split at h
+    · rename_i t' ht'
+      simp only [pure, Except.pure, Except.ok.injEq, Prod.mk.injEq] at h
+      obtain ⟨rfl, rfl⟩ := h
+      obtain ⟨used, hs, hh, hu⟩ := advance_ok ha
+      have := hu _ ht'; subst this
+      exact ⟨hs, ht', hh⟩
+    · cases h
+
+theorem advanceUnwrap_err {s : PState} {e : SErr} (h : advanceUnwrap s = .error e) :
+    e.2.toList ⊆ errs s := by
+  unfold advanceUnwrap at h
+  cases ha : advance s with
+  | error e' =>
+    simp only [ha, bind, Except.bind] at h
+    cases h; exact advance_err ha
+  | ok s1 =>
+    simp only [ha, bind, Except.bind] at h
+    split at h
+    · cases h
+    · cases h
+      simp [errs, here]
+
+theorem peek_err {s : PState} {e : SErr} (h : peek s = .error e) : e.2.toList ⊆ errs s := by
+  unfold peek at h
+  split at h
+  · cases h
+  · split at h
+    · rename_i e' he; cases h; simp [errs, he]
+    · cases h
+
+theorem snoc_locs : ∀ (acc x : Datum), (snoc acc x).locs ⊆ acc.locs ++ x.locs
+  | .pair a d l, x => by
+    have := snoc_locs d x
+    simp only [snoc, Datum.locs]
+    intro p hp
+    simp only [List.mem_append] at hp ⊢
+    rcases hp with hp | hp | hp
+    · exact Or.inl (Or.inl hp)
+    · exact Or.inl (Or.inr (Or.inl hp))
+    · rcases List.mem_append.1 (this hp) with h | h
+      · exact Or.inl (Or.inr (Or.inr h))
+      · exact Or.inr h
+  | .prim _ _, x | .sym _ _, x | .nil _, x | .vec _ _, x => by
+    simp [snoc, Datum.locs]
+
+theorem setTail_locs : ∀ (acc t : Datum), (setTail acc t).locs ⊆ acc.locs ++ t.locs
+  | .pair a d l, t => by
+    have := setTail_locs d t
+    simp only [setTail, Datum.locs]
+    intro p hp
+    simp only [List.mem_append] at hp ⊢
+    rcases hp with hp | hp | hp
+    · exact Or.inl (Or.inl hp)
+    · exact Or.inl (Or.inr (Or.inl hp))
+    · rcases List.mem_append.1 (this hp) with h | h
+      · exact Or.inl (Or.inr (Or.inr h))
+      · exact Or.inr h
+  | .prim _ _, t | .sym _ _, t | .nil _, t | .vec _ _, t => by
+    simp [setTail]
+
+theorem mkQuote_locs (l : Loc) (inner : Datum) : (mkQuote l inner).locs ⊆ l.toList ++ inner.locs := by
+  simp [mkQuote, Datum.locs]
+
+/-- the invariant for all functions of the reader's mutual block at one amount of fuel -/
+structure ReadAt (fuel : Nat) : Prop where
+  cur_ok : ∀ s od s', currentDatum fuel s = .ok (od, s') →
+    ∃ used, Steps s s' used ∧ ∀ d, od = some d → d.locs ⊆ here s ++ tokLocs used
+  cur_err : ∀ s e, currentDatum fuel s = .error e → e.2.toList ⊆ errs s
+  loop_ok : ∀ s listLoc acc dot d s', listLoop fuel s listLoc acc dot = .ok (d, s') →
+    ∃ used, Steps s s' used ∧ d.locs ⊆ listLoc.toList ++ (acc.locs ++ (here s ++ tokLocs used))
+  loop_err : ∀ s listLoc acc dot e, listLoop fuel s listLoc acc dot = .error e → e.2.toList ⊆ errs s
+  rep_ok : ∀ s acc xs s', repeatDatum fuel s acc = .ok (xs, s') →
+    ∃ used, Steps s s' used ∧ Datum.locsList xs ⊆ Datum.locsList acc ++ (here s ++ tokLocs used)
+  rep_err : ∀ s acc e, repeatDatum fuel s acc = .error e → e.2.toList ⊆ errs s
+  datum_ok : ∀ s d s', datum fuel s = .ok (d, s') →
+    ∃ used, Steps s s' used ∧ d.locs ⊆ here s ++ tokLocs used
+  datum_err : ∀ s e, datum fuel s = .error e → e.2.toList ⊆ errs s
+  quoted_ok : ∀ s d s', parseQuoted fuel s = .ok (d, s') →
+    ∃ used, Steps s s' used ∧ d.locs ⊆ here s ++ tokLocs used
+  quoted_err : ∀ s e, parseQuoted fuel s = .error e → e.2.toList ⊆ errs s
+
+theorem readAt_zero : ReadAt 0 := by
+  constructor <;> intros <;> rename_i h <;>
+    simp [currentDatum, listLoop, repeatDatum, datum, parseQuoted] at h <;> subst h <;> simp
+
+theorem steps_dropCur (s : PState) : Steps s { s with cur := none } [] :=
+  ⟨by simp, rfl, by simpa [tokLocs] using here_drop_cur s⟩
+
+theorem cur_loc_here {s : PState} {t : LToken} (h : s.cur = some t) : t.loc.toList ⊆ here s := by
+  simp [here, h]
+
+theorem loc_here (s : PState) : s.loc.toList ⊆ here s := by simp [here]
+
+theorem errs_dropCur (s : PState) : errs { s with cur := none } ⊆ errs s :=
+  (steps_dropCur s).errs
+
+theorem tokLocs_nil : tokLocs [] = [] := rfl
+theorem tokLocs_cons (t : LToken) (ts : List LToken) : tokLocs (t :: ts) = t.loc.toList ++ tokLocs ts := by
+  simp [tokLocs]
+
+macro "sub_tac" : tactic =>
+  `(tactic| (intro p hp; simp only [List.subset_def, List.mem_append, tokLocs_append, tokLocs_nil, tokLocs_cons, Datum.locs,
+      Datum.locsList, List.mem_cons, List.not_mem_nil] at *; grind))
+
+section succ
+variable {fuel : Nat} (ih : ReadAt fuel)
+include ih
+
+theorem listOrPair_ok {s d s'} (h : listOrPair fuel s = .ok (d, s')) :
+    ∃ used, Steps s s' used ∧ d.locs ⊆ here s ++ tokLocs used := by
+  unfold listOrPair at h
+  obtain ⟨used, hs, hd⟩ := ih.loop_ok _ _ _ _ _ _ h
+  refine ⟨used, hs, ?_⟩
+  have := loc_here s
+  sub_tac
+
+theorem listOrPair_err {s e} (h : listOrPair fuel s = .error e) : e.2.toList ⊆ errs s := by
+  unfold listOrPair at h
+  exact ih.loop_err _ _ _ _ _ h
+
+theorem r_cur_ok {s od s'} (h : currentDatum (fuel + 1) s = .ok (od, s')) :
+    ∃ used, Steps s s' used ∧ ∀ d, od = some d → d.locs ⊆ here s ++ tokLocs used := by
+  rw [currentDatum] at h
+  split at h
+  · cases h; exact ⟨[], Steps.refl s, by simp⟩
+  · rename_i t ht
+    have h0 := steps_dropCur s
+    have htl := cur_loc_here ht
+    simp only at h
+    split at h
+    · cases h
+      exact ⟨[], h0, fun d hd => by cases hd; simpa [Datum.locs, tokLocs] using htl⟩
+    · cases h
+      exact ⟨[], h0, fun d hd => by cases hd; simpa [Datum.locs, tokLocs] using htl⟩
+    · cases hl : listOrPair fuel { s with cur := none } with
+      | error e => simp [hl, bind, Except.bind] at h
+      | ok r =>
+        obtain ⟨d, s1⟩ := r
+        simp only [hl, bind, Except.bind, pure, Except.pure, Except.ok.injEq, Prod.mk.injEq] at h
+        obtain ⟨rfl, rfl⟩ := h
+        obtain ⟨used, hs, hd⟩ := listOrPair_ok ih hl
+        refine ⟨used, by simpa using h0.trans hs, fun d' hd' => ?_⟩
+        cases hd'
+        have := h0.here
+        sub_tac
+    · cases h
+    · cases hl : repeatDatum fuel { s with cur := none } [] with
+      | error e => simp [hl, bind, Except.bind] at h
+      | ok r =>
+        obtain ⟨xs, s1⟩ := r
+        simp only [hl, bind, Except.bind, pure, Except.pure, Except.ok.injEq, Prod.mk.injEq] at h
+        obtain ⟨rfl, rfl⟩ := h
+        obtain ⟨used, hs, hd⟩ := ih.rep_ok _ _ _ _ hl
+        refine ⟨used, by simpa using h0.trans hs, fun d' hd' => ?_⟩
+        cases hd'
+        have h1 := h0.here
+        have h2 := hs.here
+        have h3 := loc_here s1
+        sub_tac
+    · cases ha : advance { s with cur := none } with
+      | error e => simp [ha, bind, Except.bind] at h
+      | ok s1 =>
+        simp only [ha, bind, Except.bind] at h
+        cases hq : parseQuoted fuel s1 with
+        | error e => simp [hq] at h
+        | ok r =>
+          obtain ⟨d, s2⟩ := r
+          simp only [hq, pure, Except.pure, Except.ok.injEq, Prod.mk.injEq] at h
+          obtain ⟨rfl, rfl⟩ := h
+          obtain ⟨u1, hs1, hh1, -⟩ := advance_ok ha
+          obtain ⟨u2, hs2, hd⟩ := ih.quoted_ok _ _ _ hq
+          refine ⟨u1 ++ u2, by simpa using h0.trans (hs1.trans hs2), fun d' hd' => ?_⟩
+          cases hd'
+          sub_tac
+    · cases h
+
+theorem r_cur_err {s e} (h : currentDatum (fuel + 1) s = .error e) : e.2.toList ⊆ errs s := by
+  rw [currentDatum] at h
+  split at h
+  · cases h
+  · rename_i t ht
+    have h0 := steps_dropCur s
+    have htl : t.loc.toList ⊆ errs s := (cur_loc_here ht).trans (by simp [errs])
+    simp only at h
+    split at h
+    · cases h
+    · cases h
+    · cases hl : listOrPair fuel { s with cur := none } with
+      | error e' =>
+        simp only [hl, bind, Except.bind] at h; cases h
+        exact (listOrPair_err ih hl).trans h0.errs
+      | ok r => simp [hl, bind, Except.bind, pure, Except.pure] at h
+    · cases h; exact htl
+    · cases hl : repeatDatum fuel { s with cur := none } [] with
+      | error e' =>
+        simp only [hl, bind, Except.bind] at h; cases h
+        exact (ih.rep_err _ _ _ hl).trans h0.errs
+      | ok r => simp [hl, bind, Except.bind, pure, Except.pure] at h
+    · cases ha : advance { s with cur := none } with
+      | error e' =>
+        simp only [ha, bind, Except.bind] at h; cases h
+        exact (advance_err ha).trans h0.errs
+      | ok s1 =>
+        simp only [ha, bind, Except.bind] at h
+        cases hq : parseQuoted fuel s1 with
+        | error e' =>
+          simp only [hq] at h; cases h
+          obtain ⟨u1, hs1, -, -⟩ := advance_ok ha
+          exact ((ih.quoted_err _ _ hq).trans hs1.errs).trans h0.errs
+        | ok r => simp [hq, pure, Except.pure] at h
+    · cases h; exact htl
+
+theorem r_quoted_ok {s d s'} (h : parseQuoted (fuel + 1) s = .ok (d, s')) :
+    ∃ used, Steps s s' used ∧ d.locs ⊆ here s ++ tokLocs used := by
+  rw [parseQuoted] at h
+  cases hq : datum fuel s with
+  | error e => simp [hq, bind, Except.bind] at h
+  | ok r =>
+    obtain ⟨inner, s1⟩ := r
+    simp only [hq, bind, Except.bind, pure, Except.pure, Except.ok.injEq, Prod.mk.injEq] at h
+    obtain ⟨rfl, rfl⟩ := h
+    obtain ⟨used, hs, hd⟩ := ih.datum_ok _ _ _ hq
+    refine ⟨used, hs, ?_⟩
+    have h1 := mkQuote_locs s.loc inner
+    have h2 := loc_here s
+    sub_tac
+
+theorem r_quoted_err {s e} (h : parseQuoted (fuel + 1) s = .error e) : e.2.toList ⊆ errs s := by
+  rw [parseQuoted] at h
+  cases hq : datum fuel s with
+  | error e' => simp only [hq, bind, Except.bind] at h; cases h; exact ih.datum_err _ _ hq
+  | ok r => simp [hq, bind, Except.bind, pure, Except.pure] at h
+
+theorem r_datum_ok {s d s'} (h : datum (fuel + 1) s = .ok (d, s')) :
+    ∃ used, Steps s s' used ∧ d.locs ⊆ here s ++ tokLocs used := by
+  rw [datum] at h
+  simp only at h
+  split at h
+  · cases h
+  · rename_i t ht
+    have hl0 := loc_here s
+    split at h
+    · exact listOrPair_ok ih h
+    · cases hl : repeatDatum fuel s [] with
+      | error e => simp [hl, bind, Except.bind] at h
+      | ok r =>
+        obtain ⟨xs, s1⟩ := r
+        simp only [hl, bind, Except.bind, pure, Except.pure, Except.ok.injEq, Prod.mk.injEq] at h
+        obtain ⟨rfl, rfl⟩ := h
+        obtain ⟨used, hs, hd⟩ := ih.rep_ok _ _ _ _ hl
+        refine ⟨used, hs, ?_⟩
+        sub_tac
+    · cases h; exact ⟨[], Steps.refl s, by simpa [Datum.locs, tokLocs] using hl0⟩
+    · cases h; exact ⟨[], Steps.refl s, by simpa [Datum.locs, tokLocs] using hl0⟩
+    · cases ha : advance s with
+      | error e => simp [ha, bind, Except.bind] at h
+      | ok s1 =>
+        simp only [ha, bind, Except.bind] at h
+        obtain ⟨u1, hs1, hh1, -⟩ := advance_ok ha
+        obtain ⟨u2, hs2, hd⟩ := ih.quoted_ok _ _ _ h
+        refine ⟨u1 ++ u2, hs1.trans hs2, ?_⟩
+        sub_tac
+    · cases h
+
+theorem r_datum_err {s e} (h : datum (fuel + 1) s = .error e) : e.2.toList ⊆ errs s := by
+  rw [datum] at h
+  simp only at h
+  have hl0 : s.loc.toList ⊆ errs s := (loc_here s).trans (by simp [errs])
+  split at h
+  · cases h; exact hl0
+  · split at h
+    · exact listOrPair_err ih h
+    · cases hl : repeatDatum fuel s [] with
+      | error e' => simp only [hl, bind, Except.bind] at h; cases h; exact ih.rep_err _ _ _ hl
+      | ok r => simp [hl, bind, Except.bind, pure, Except.pure] at h
+    · cases h
+    · cases h
+    · cases ha : advance s with
+      | error e' => simp only [ha, bind, Except.bind] at h; cases h; exact advance_err ha
+      | ok s1 =>
+        simp only [ha, bind, Except.bind] at h
+        obtain ⟨u1, hs1, -, -⟩ := advance_ok ha
+        exact (ih.quoted_err _ _ h).trans hs1.errs
+    · cases h; exact hl0
+
+theorem r_rep_ok {s acc xs s'} (h : repeatDatum (fuel + 1) s acc = .ok (xs, s')) :
+    ∃ used, Steps s s' used ∧ Datum.locsList xs ⊆ Datum.locsList acc ++ (here s ++ tokLocs used) := by
+  rw [repeatDatum] at h
+  cases hp : peek s with
+  | error e => simp [hp, bind, Except.bind] at h
+  | ok o =>
+    simp only [hp, bind, Except.bind] at h
+    split at h
+    · cases h
+    · rename_i t
+      split at h
+      · cases ha : advance s with
+        | error e => simp [ha] at h
+        | ok s1 =>
+          simp only [ha, pure, Except.pure, Except.ok.injEq, Prod.mk.injEq] at h
+          obtain ⟨rfl, rfl⟩ := h
+          obtain ⟨u1, hs1, -, -⟩ := advance_ok ha
+          refine ⟨u1, hs1, ?_⟩
+          rw [Datum.locsList_subset]
+          intro x hx
+          have := Datum.locs_subset_locsList (List.mem_reverse.1 hx)
+          sub_tac
+      · cases ha : advance s with
+        | error e => simp [ha] at h
+        | ok s1 =>
+          simp only [ha] at h
+          cases hd : datum fuel s1 with
+          | error e => simp [hd] at h
+          | ok r =>
+            obtain ⟨d, s2⟩ := r
+            simp only [hd] at h
+            obtain ⟨u1, hs1, hh1, -⟩ := advance_ok ha
+            obtain ⟨u2, hs2, hd2⟩ := ih.datum_ok _ _ _ hd
+            obtain ⟨u3, hs3, hx3⟩ := ih.rep_ok _ _ _ _ h
+            refine ⟨u1 ++ (u2 ++ u3), hs1.trans (hs2.trans hs3), ?_⟩
+            have h2 := hs2.here
+            sub_tac
+
+theorem r_rep_err {s acc e} (h : repeatDatum (fuel + 1) s acc = .error e) : e.2.toList ⊆ errs s := by
+  rw [repeatDatum] at h
+  cases hp : peek s with
+  | error e' => simp only [hp, bind, Except.bind] at h; cases h; exact peek_err hp
+  | ok o =>
+    simp only [hp, bind, Except.bind] at h
+    split at h
+    · cases h; exact (loc_here s).trans (by simp [errs])
+    · split at h
+      · cases ha : advance s with
+        | error e' => simp only [ha] at h; cases h; exact advance_err ha
+        | ok s1 => simp [ha, pure, Except.pure] at h
+      · cases ha : advance s with
+        | error e' => simp only [ha] at h; cases h; exact advance_err ha
+        | ok s1 =>
+          simp only [ha] at h
+          obtain ⟨u1, hs1, -, -⟩ := advance_ok ha
+          cases hd : datum fuel s1 with
+          | error e' => simp only [hd] at h; cases h; exact (ih.datum_err _ _ hd).trans hs1.errs
+          | ok r =>
+            obtain ⟨d, s2⟩ := r
+            simp only [hd] at h
+            obtain ⟨u2, hs2, -⟩ := ih.datum_ok _ _ _ hd
+            exact ((ih.rep_err _ _ _ h).trans hs2.errs).trans hs1.errs
+
+theorem r_loop_ok {s listLoc acc dot d s'} (h : listLoop (fuel + 1) s listLoc acc dot = .ok (d, s')) :
+    ∃ used, Steps s s' used ∧ d.locs ⊆ listLoc.toList ++ (acc.locs ++ (here s ++ tokLocs used)) := by
+  rw [listLoop] at h
+  cases ha : advanceUnwrap s with
+  | error e => simp [ha, bind, Except.bind] at h
+  | ok r =>
+    obtain ⟨t, s1⟩ := r
+    simp only [ha, bind, Except.bind] at h
+    obtain ⟨hs1, hc1, hh1⟩ := advanceUnwrap_ok ha
+    split at h
+    · split at h
+      · cases h
+      · obtain ⟨u, hs, hd⟩ := ih.loop_ok _ _ _ _ _ _ h
+        refine ⟨[t] ++ u, hs1.trans hs, ?_⟩
+        sub_tac
+    · simp only [pure, Except.pure, Except.ok.injEq, Prod.mk.injEq] at h
+      obtain ⟨rfl, rfl⟩ := h
+      refine ⟨[t], hs1, ?_⟩
+      have := Datum.locs_withLoc acc listLoc
+      sub_tac
+    · cases hcd : currentDatum fuel s1 with
+      | error e => simp [hcd] at h
+      | ok r =>
+        obtain ⟨od, s2⟩ := r
+        simp only [hcd] at h
+        obtain ⟨u2, hs2, hd2⟩ := ih.cur_ok _ _ _ hcd
+        split at h
+        · cases h
+        · rename_i element
+          have hel := hd2 element rfl
+          split at h
+          · rename_i ca cd cl
+            split at h
+            · cases ha2 : advanceUnwrap s2 with
+              | error e => simp [ha2] at h
+              | ok r2 =>
+                obtain ⟨t2, s3⟩ := r2
+                simp only [ha2] at h
+                obtain ⟨hs3, -, -⟩ := advanceUnwrap_ok ha2
+                split at h
+                · simp only [pure, Except.pure, Except.ok.injEq, Prod.mk.injEq] at h
+                  obtain ⟨rfl, rfl⟩ := h
+                  refine ⟨[t] ++ (u2 ++ [t2]), hs1.trans (hs2.trans hs3), ?_⟩
+                  have h4 := Datum.locs_withLoc (setTail (Datum.pair ca cd cl) element) listLoc
+                  have h5 := setTail_locs (Datum.pair ca cd cl) element
+                  sub_tac
+                · cases h
+            · obtain ⟨u, hs, hd⟩ := ih.loop_ok _ _ _ _ _ _ h
+              refine ⟨[t] ++ (u2 ++ u), hs1.trans (hs2.trans hs), ?_⟩
+              have h5 := snoc_locs (Datum.pair ca cd cl) element
+              have h6 := hs2.here
+              sub_tac
+          · obtain ⟨u, hs, hd⟩ := ih.loop_ok _ _ _ _ _ _ h
+            refine ⟨[t] ++ (u2 ++ u), hs1.trans (hs2.trans hs), ?_⟩
+            have h6 := hs2.here
+            sub_tac
+
+theorem r_loop_err {s listLoc acc dot e} (h : listLoop (fuel + 1) s listLoc acc dot = .error e) :
+    e.2.toList ⊆ errs s := by
+  rw [listLoop] at h
+  cases ha : advanceUnwrap s with
+  | error e' => simp only [ha, bind, Except.bind] at h; cases h; exact advanceUnwrap_err ha
+  | ok r =>
+    obtain ⟨t, s1⟩ := r
+    simp only [ha, bind, Except.bind] at h
+    obtain ⟨hs1, hc1, hh1⟩ := advanceUnwrap_ok ha
+    have htl : t.loc.toList ⊆ errs s := by
+      have := hs1.toks
+      intro x hx
+      simp only [errs, List.mem_append]
+      right; left; rw [this, tokLocs_append]; simp [tokLocs_cons, hx]
+    split at h
+    · split at h
+      · cases h; exact htl
+      · exact (ih.loop_err _ _ _ _ _ h).trans hs1.errs
+    · simp [pure, Except.pure] at h
+    · cases hcd : currentDatum fuel s1 with
+      | error e' => simp only [hcd] at h; cases h; exact (ih.cur_err _ _ hcd).trans hs1.errs
+      | ok r =>
+        obtain ⟨od, s2⟩ := r
+        simp only [hcd] at h
+        obtain ⟨u2, hs2, -⟩ := ih.cur_ok _ _ _ hcd
+        split at h
+        · cases h; simp
+        · split at h
+          · split at h
+            · cases ha2 : advanceUnwrap s2 with
+              | error e' =>
+                simp only [ha2] at h; cases h
+                exact ((advanceUnwrap_err ha2).trans hs2.errs).trans hs1.errs
+              | ok r2 =>
+                obtain ⟨t2, s3⟩ := r2
+                simp only [ha2] at h
+                obtain ⟨hs3, -, -⟩ := advanceUnwrap_ok ha2
+                split at h
+                · simp [pure, Except.pure] at h
+                · cases h
+                  exact ((((loc_here s3).trans (by simp [errs])).trans hs3.errs).trans hs2.errs).trans hs1.errs
+            · exact ((ih.loop_err _ _ _ _ _ h).trans hs2.errs).trans hs1.errs
+          · exact ((ih.loop_err _ _ _ _ _ h).trans hs2.errs).trans hs1.errs
+
+end succ
+
+theorem readAt : ∀ fuel, ReadAt fuel
+  | 0 => readAt_zero
+  | fuel + 1 =>
+    have ih := readAt fuel
+    ⟨fun _ _ _ => r_cur_ok ih, fun _ _ => r_cur_err ih, fun _ _ _ _ _ _ => r_loop_ok ih,
+     fun _ _ _ _ _ => r_loop_err ih, fun _ _ _ _ => r_rep_ok ih, fun _ _ _ => r_rep_err ih,
+     fun _ _ _ => r_datum_ok ih, fun _ _ => r_datum_err ih, fun _ _ _ => r_quoted_ok ih,
+     fun _ _ => r_quoted_err ih⟩
+
+/-- `reader_locs_from_tokens`, for `nextDatum`: the tokens `used` were consumed; every position of
+the datum is the position of one of them -/
+theorem nextDatum_ok {s s' : PState} {od : Option Datum} (h : nextDatum s = .ok (od, s')) :
+    ∃ used, s.toks = used ++ s'.toks ∧ s'.lexErr = s.lexErr ∧ ∀ d, od = some d → d.locs ⊆ tokLocs used := by
+  unfold nextDatum at h
+  cases ha : advance s with
+  | error e => simp [ha, bind, Except.bind] at h
+  | ok s1 =>
+    simp only [ha, bind, Except.bind] at h
+    obtain ⟨u1, hs1, hh1, -⟩ := advance_ok ha
+    obtain ⟨u2, hs2, hd⟩ := (readAt _).cur_ok _ _ _ h
+    refine ⟨u1 ++ u2, (hs1.trans hs2).toks, (hs1.trans hs2).lexErr, fun d hd' => ?_⟩
+    have := hd d hd'
+    sub_tac
+
+/-- a reader error is located at a token of the rest of the text, at the parser's current position,
+or where the lexer failed -/
+theorem nextDatum_err {s : PState} {e : SErr} (h : nextDatum s = .error e) : e.2.toList ⊆ errs s := by
+  unfold nextDatum at h
+  cases ha : advance s with
+  | error e' => simp only [ha, bind, Except.bind] at h; cases h; exact advance_err ha
+  | ok s1 =>
+    simp only [ha, bind, Except.bind] at h
+    obtain ⟨u1, hs1, -, -⟩ := advance_ok ha
+    exact ((readAt _).cur_err _ _ h).trans hs1.errs
+
+end ReadLoc
+
+/-! ## the lexer: token and error positions are cursors inside the text -/
+
+namespace LexLoc
+open Lex Text
+
+/-- `e` is the cursor reached from `p` after some prefix of `cs` -/
+def Cur (cs : List Char) (p e : Lex.Pos) : Prop := ∃ pre, pre <+: cs ∧ e = advs pre p
+
+theorem Cur.here (cs : List Char) (p : Lex.Pos) : Cur cs p p := ⟨[], List.nil_prefix, rfl⟩
+
+theorem Cur.cons {cs : List Char} {p e : Lex.Pos} (c : Char) (h : Cur cs (adv c p) e) : Cur (c :: cs) p e := by
+  obtain ⟨pre, hp, he⟩ := h
+  exact ⟨c :: pre, (List.cons_prefix_cons).2 ⟨rfl, hp⟩, by simp [advs, he]⟩
+
+theorem Cur.used {cs rest : List Char} {p p' e : Lex.Pos} {used : List Char} (hu : Used cs p rest p' used)
+    (h : Cur rest p' e) : Cur cs p e := by
+  obtain ⟨pre, hp, he⟩ := h
+  refine ⟨used ++ pre, ?_, by rw [advs_append, ← hu.pos, he]⟩
+  rw [hu.split]; exact (List.prefix_append_right_inj used).2 hp
+
+theorem testDelimiter_err {p : Lex.Pos} {c : Char} {e} (h : testDelimiter p c = .error e) : e = p := by
+  unfold testDelimiter at h; split at h <;> cases h; rfl
+theorem endOfToken_err {cs : List Char} {p : Lex.Pos} {e} (h : endOfToken cs p = .error e) : e = p := by
+  unfold endOfToken at h; split at h
+  · cases h
+  · exact testDelimiter_err h
+theorem endOfSharpToken_err {cs : List Char} {p : Lex.Pos} {e} (h : endOfSharpToken cs p = .error e) : e = p := by
+  unfold endOfSharpToken at h; split at h
+  · cases h
+  · exact endOfToken_err h
+
+theorem takeRun_used (f : Char → Bool) (cs : List Char) (p : Lex.Pos) (acc : List Char) :
+    Used cs p (takeRun f cs p acc).2.1 (takeRun f cs p acc).2.2 (cs.takeWhile f) := by
+  rw [takeRun_spec]
+  exact ⟨by simp, rfl⟩
+
+theorem bindE {α β ε} {x : Except ε α} {f : α → Except ε β} {e : ε}
+    (h : (x >>= f) = .error e) : x = .error e ∨ ∃ a, x = .ok a ∧ f a = .error e := by
+  cases x with
+  | error e' => left; simpa [bind, Except.bind] using h
+  | ok a => right; exact ⟨a, rfl, h⟩
+
+theorem integerToken_err {lit cs p e} (h : integerToken lit cs p = .error e) : e = p := by
+  unfold integerToken at h; split at h <;> cases h; rfl
+theorem realToken_err {lit cs p e} (h : realToken lit cs p = .error e) : e = p := by
+  unfold realToken at h; split at h <;> cases h; rfl
+
+theorem normalIdentifier_err {first cs p e} (h : normalIdentifier first cs p = .error e) : Cur cs p e := by
+  unfold normalIdentifier at h
+  have hu := takeRun_used isSubsequent cs p []
+  generalize takeRun isSubsequent cs p [] = r at h hu
+  obtain ⟨run, cs1, p1⟩ := r
+  simp only at h hu
+  split at h
+  · cases h
+  · rcases bindE h with h1 | ⟨_, -, h2⟩
+    · rw [testDelimiter_err h1]; exact Cur.used hu (Cur.here _ _)
+    · cases h2
+
+theorem quotedIdentifier_err : ∀ {cs p acc e}, quotedIdentifier cs p acc = .error e → Cur cs p e
+  | [], p, acc, e, h => by simp [quotedIdentifier] at h; subst h; exact Cur.here _ _
+  | c :: cs, p, acc, e, h => by
+    unfold quotedIdentifier at h
+    split at h
+    · cases h
+    · exact Cur.cons c (quotedIdentifier_err h)
+
+theorem hexEscape_err : ∀ {cs p acc e}, hexEscape cs p acc = .error e → Cur cs p e
+  | [], p, acc, e, h => by simp [hexEscape] at h; subst h; exact Cur.here _ _
+  | c :: cs, p, acc, e, h => by
+    unfold hexEscape at h
+    split at h
+    · cases h
+    · exact Cur.cons c (hexEscape_err h)
+
+theorem string_err : ∀ (n : Nat) {cs : List Char} {p acc e}, cs.length ≤ n →
+    Lex.string cs p acc = .error e → Cur cs p e := by
+  intro n
+  induction n with
+  | zero =>
+    intro cs p acc e hn h
+    have : cs = [] := List.length_eq_zero_iff.1 (by omega)
+    subst this
+    simp [Lex.string] at h; subst h; exact Cur.here _ _
+  | succ n ih =>
+    intro cs p acc e hn h
+    cases cs with
+    | nil => simp [Lex.string] at h; subst h; exact Cur.here _ _
+    | cons c cs =>
+      simp only [List.length_cons] at hn
+      rw [Lex.string.eq_def] at h
+      dsimp only at h
+      by_cases hc : c = '"'
+      · rw [if_pos hc] at h; cases h
+      rw [if_neg hc] at h
+      by_cases hb : c = '\\'
+      · rw [if_pos hb] at h
+        cases cs with
+        | nil => dsimp only at h; cases h; exact Cur.cons c (Cur.here _ _)
+        | cons ec cs1 =>
+          dsimp only at h
+          simp only [List.length_cons] at hn
+          have hrec : ∀ {acc'}, Lex.string cs1 (adv ec (adv c p)) acc' = .error e → Cur (c :: ec :: cs1) p e :=
+            fun h' => Cur.cons c (Cur.cons ec (ih (by omega) h'))
+          by_cases hq : ec = 'a'
+          · rw [if_pos hq] at h; exact hrec h
+          rw [if_neg hq] at h; clear hq
+          by_cases hq : ec = 'b'
+          · rw [if_pos hq] at h; exact hrec h
+          rw [if_neg hq] at h; clear hq
+          by_cases hq : ec = 't'
+          · rw [if_pos hq] at h; exact hrec h
+          rw [if_neg hq] at h; clear hq
+          by_cases hq : ec = 'n'
+          · rw [if_pos hq] at h; exact hrec h
+          rw [if_neg hq] at h; clear hq
+          by_cases hq : ec = 'r'
+          · rw [if_pos hq] at h; exact hrec h
+          rw [if_neg hq] at h; clear hq
+          by_cases hq : ec = '"'
+          · rw [if_pos hq] at h; exact hrec h
+          rw [if_neg hq] at h; clear hq
+          by_cases hq : ec = '\\'
+          · rw [if_pos hq] at h; exact hrec h
+          rw [if_neg hq] at h; clear hq
+          by_cases hq : ec = '|'
+          · rw [if_pos hq] at h; exact hrec h
+          rw [if_neg hq] at h; clear hq
+          by_cases hq : ec = ' '
+          · rw [if_pos hq] at h; exact hrec h
+          rw [if_neg hq] at h; clear hq
+          by_cases hx : ec = 'x'
+          · rw [if_pos hx] at h
+            split at h
+            · rename_i e' he
+              cases h
+              exact Cur.cons c (Cur.cons ec (hexEscape_err he))
+            · rename_i hex cs2 p3 he
+              obtain ⟨body, hu, -⟩ := hexEscape_inv he
+              have hlen := hu.length_le
+              cases hs : hexScalar? hex with
+              | some ch =>
+                simp only [hs] at h
+                exact Cur.cons c (Cur.cons ec (Cur.used hu (ih (by simp at hlen; omega) h)))
+              | none =>
+                simp only [hs] at h
+                cases h
+                exact Cur.cons c (Cur.cons ec (Cur.used hu (Cur.here _ _)))
+          · rw [if_neg hx] at h; cases h; exact Cur.cons c (Cur.cons ec (Cur.here _ _))
+      · rw [if_neg hb] at h
+        exact Cur.cons c (ih (by omega) h)
+
+theorem string_error {cs : List Char} {p acc e} (h : Lex.string cs p acc = .error e) : Cur cs p e :=
+  string_err cs.length (Nat.le_refl _) h
+
+theorem dotSubsequent_err {acc cs p e} (h : dotSubsequent acc cs p = .error e) : Cur cs p e := by
+  unfold dotSubsequent at h
+  split at h
+  · cases h
+  · rename_i c rest
+    split at h
+    · have hu := takeRun_used isSubsequent (c :: rest) p []
+      generalize takeRun isSubsequent (c :: rest) p [] = r at h hu
+      obtain ⟨run, cs1, p1⟩ := r
+      simp only at h hu
+      split at h
+      · cases h
+      · rcases bindE h with h1 | ⟨_, -, h2⟩
+        · rw [testDelimiter_err h1]; exact Cur.used hu (Cur.here _ _)
+        · cases h2
+    · rcases bindE h with h1 | ⟨_, -, h2⟩
+      · rw [testDelimiter_err h1]; exact Cur.here _ _
+      · cases h2
+
+theorem peculiarIdentifier_err {first cs p e} (h : peculiarIdentifier first cs p = .error e) : Cur cs p e := by
+  unfold peculiarIdentifier at h
+  split at h
+  · split at h
+    · cases h
+    · rename_i c cs1
+      split at h
+      · rcases bindE h with h1 | ⟨_, -, h2⟩
+        · exact Cur.cons c (dotSubsequent_err h1)
+        · cases h2
+      · rcases bindE h with h1 | ⟨_, -, h2⟩
+        · exact dotSubsequent_err h1
+        · cases h2
+  · rcases bindE h with h1 | ⟨_, -, h2⟩
+    · exact dotSubsequent_err h1
+    · cases h2
+
+/-- `numberSuffix` consumes a prefix -/
+theorem numberSuffix_used (lit cs : List Char) (p : Lex.Pos) :
+    ∃ used, Used cs p (numberSuffix lit cs p).2.1 (numberSuffix lit cs p).2.2 used := by
+  unfold numberSuffix
+  cases cs with
+  | nil => exact ⟨[], Used.nil _ _⟩
+  | cons e cs1 =>
+    simp only
+    cases cs1 with
+    | nil =>
+      simp only [takeRun]
+      exact ⟨[e], ⟨rfl, rfl⟩⟩
+    | cons s cs2 =>
+      simp only
+      split
+      · have hu := takeRun_used isDigit cs2 (adv s (adv e p)) []
+        exact ⟨e :: s :: _, (hu.cons s).cons e⟩
+      · have hu := takeRun_used isDigit (s :: cs2) (adv e p) []
+        exact ⟨e :: _, hu.cons e⟩
+
+theorem real_err {lit cs p e} (h : real lit cs p = .error e) : Cur cs p e := by
+  unfold real at h
+  split at h
+  · rename_i dot cs1
+    simp only at h
+    split at h
+    · cases h
+    · rename_i nc rest
+      split at h
+      · obtain ⟨used, hu⟩ := numberSuffix_used (lit ++ ['.']) (nc :: rest) (adv dot p)
+        generalize numberSuffix (lit ++ ['.']) (nc :: rest) (adv dot p) = r at h hu
+        obtain ⟨lit', cs2, p2⟩ := r
+        simp only at h hu
+        rcases bindE h with h1 | ⟨_, -, h2⟩
+        · rw [endOfToken_err h1]; exact Cur.cons dot (Cur.used hu (Cur.here _ _))
+        · cases h2
+      · split at h
+        · have hu := takeRun_used isDigit (nc :: rest) (adv dot p) []
+          generalize takeRun isDigit (nc :: rest) (adv dot p) [] = r at h hu
+          obtain ⟨ds, cs2, p2⟩ := r
+          simp only at h hu
+          split at h
+          · cases h
+          · rename_i nnc rest2
+            split at h
+            · obtain ⟨used, hu2⟩ := numberSuffix_used (lit ++ ['.'] ++ ds) (nnc :: rest2) p2
+              generalize numberSuffix (lit ++ ['.'] ++ ds) (nnc :: rest2) p2 = r2 at h hu2
+              obtain ⟨lit', cs3, p3⟩ := r2
+              simp only at h hu2
+              rcases bindE h with h1 | ⟨_, -, h2⟩
+              · rw [endOfToken_err h1]
+                exact Cur.cons dot (Cur.used hu (Cur.used hu2 (Cur.here _ _)))
+              · cases h2
+            · rcases bindE h with h1 | ⟨_, -, h2⟩
+              · rw [testDelimiter_err h1]; exact Cur.cons dot (Cur.used hu (Cur.here _ _))
+              · cases h2
+        · rcases bindE h with h1 | ⟨_, -, h2⟩
+          · rw [testDelimiter_err h1]; exact Cur.cons dot (Cur.here _ _)
+          · cases h2
+  · cases h
+
+theorem number_err {first cs p e} (h : number first cs p = .error e) : Cur cs p e := by
+  unfold number at h
+  have hu := takeRun_used isDigit cs p []
+  generalize takeRun isDigit cs p [] = r at h hu
+  obtain ⟨ds, cs1, p1⟩ := r
+  simp only at h hu
+  split at h
+  · rw [integerToken_err h]; exact Cur.used hu (Cur.here _ _)
+  · rename_i nc rest
+    split at h
+    · obtain ⟨used, hu2⟩ := numberSuffix_used (first :: ds) (nc :: rest) p1
+      generalize numberSuffix (first :: ds) (nc :: rest) p1 = r2 at h hu2
+      obtain ⟨lit', cs2, p2⟩ := r2
+      simp only at h hu2
+      rcases bindE h with h1 | ⟨_, -, h2⟩
+      · rw [endOfToken_err h1]; exact Cur.used hu (Cur.used hu2 (Cur.here _ _))
+      · rw [realToken_err h2]; exact Cur.used hu (Cur.used hu2 (Cur.here _ _))
+    · split at h
+      · rename_i hdot
+        subst hdot
+        rcases bindE h with h1 | ⟨r3, h3, h2⟩
+        · exact Cur.used hu (real_err h1)
+        · obtain ⟨lit', cs2, p2⟩ := r3
+          obtain ⟨used, hu3, -⟩ := real_inv h3
+          rw [realToken_err h2]; exact Cur.used hu (Cur.used hu3 (Cur.here _ _))
+      · split at h
+        · have hu2 := takeRun_used isDigit rest (adv nc p1) []
+          generalize takeRun isDigit rest (adv nc p1) [] = r2 at h hu2
+          obtain ⟨den, cs3, p3⟩ := r2
+          simp only at h hu2
+          have hp3 : Cur cs p p3 := Cur.used hu (Cur.cons nc (Cur.used hu2 (Cur.here _ _)))
+          rcases bindE h with h1 | ⟨_, -, h2⟩
+          · rw [endOfToken_err h1]; exact hp3
+          · split at h2 <;> cases h2 <;> exact hp3
+        · rcases bindE h with h1 | ⟨_, -, h2⟩
+          · rw [testDelimiter_err h1]; exact Cur.used hu (Cur.here _ _)
+          · rw [integerToken_err h2]; exact Cur.used hu (Cur.here _ _)
+
+theorem character_err {first cs p e} (h : character first cs p = .error e) : Cur cs p e := by
+  unfold character at h
+  have hu := takeRun_used isAsciiAlnum cs p []
+  generalize takeRun isAsciiAlnum cs p [] = r at h hu
+  obtain ⟨run, cs1, p1⟩ := r
+  simp only at h hu
+  have hp1 : Cur cs p p1 := Cur.used hu (Cur.here _ _)
+  rcases bindE h with h1 | ⟨_, -, h2⟩
+  · rw [endOfSharpToken_err h1]; exact hp1
+  · repeat' split at h2
+    all_goals first
+      | (cases h2; done)
+      | (cases h2; exact hp1)
+
+theorem map_some_err {α ε} {x : Except ε α} {e : ε} (h : x.map some = .error e) : x = .error e := by
+  cases x <;> simp [Except.map] at h; subst h; rfl
+
+theorem token_err {cs p e} (h : token cs p = .error e) : Cur cs p e := by
+  cases cs with
+  | nil => simp [token] at h
+  | cons c cs1 =>
+    rw [token.eq_def] at h
+    dsimp only at h
+    by_cases h1 : c = '('
+    · rw [if_pos h1] at h; cases h
+    rw [if_neg h1] at h
+    by_cases h2 : c = ')'
+    · rw [if_pos h2] at h; cases h
+    rw [if_neg h2] at h
+    by_cases h3 : c = '\''
+    · rw [if_pos h3] at h; cases h
+    rw [if_neg h3] at h
+    by_cases h4 : c = '`'
+    · rw [if_pos h4] at h; cases h
+    rw [if_neg h4] at h
+    by_cases h5 : c = '#'
+    · rw [if_pos h5] at h
+      cases cs1 with
+      | nil => cases h; exact Cur.cons _ (Cur.here _ _)
+      | cons cn cs2 =>
+        simp only at h
+        split at h
+        · cases h
+        split at h
+        · rcases bindE h with h1 | ⟨_, -, h2⟩
+          · rw [endOfSharpToken_err h1]; exact Cur.cons _ (Cur.cons _ (Cur.here _ _))
+          · cases h2
+        split at h
+        · cases cs2 with
+          | nil => cases h; exact Cur.cons _ (Cur.cons _ (Cur.here _ _))
+          | cons cnn cs3 =>
+            exact Cur.cons _ (Cur.cons _ (Cur.cons _ (character_err (map_some_err h))))
+        split at h
+        · cases cs2 with
+          | nil => cases h; exact Cur.cons _ (Cur.cons _ (Cur.here _ _))
+          | cons c8 cs3 =>
+            simp only at h
+            split at h
+            · cases cs3 with
+              | nil => cases h; exact Cur.cons _ (Cur.cons _ (Cur.cons _ (Cur.here _ _)))
+              | cons cp cs4 =>
+                simp only at h
+                split at h
+                · cases h
+                · cases h; exact Cur.cons _ (Cur.cons _ (Cur.cons _ (Cur.cons _ (Cur.here _ _))))
+            · cases h; exact Cur.cons _ (Cur.cons _ (Cur.cons _ (Cur.here _ _)))
+        · cases h; exact Cur.cons _ (Cur.cons _ (Cur.here _ _))
+    rw [if_neg h5] at h
+    by_cases h6 : c = ','
+    · rw [if_pos h6] at h
+      cases cs1 with
+      | nil => cases h
+      | cons nc cs2 =>
+        simp only at h
+        split at h <;> cases h
+    rw [if_neg h6] at h
+    by_cases h7 : c = '.'
+    · rw [if_pos h7] at h
+      cases cs1 with
+      | nil => cases h
+      | cons nc cs2 =>
+        simp only at h
+        split at h
+        · cases h
+        · exact Cur.cons _ (peculiarIdentifier_err (map_some_err h))
+    rw [if_neg h7] at h
+    by_cases h8 : (c = '+' || c = '-') = true
+    · rw [if_pos h8] at h
+      cases cs1 with
+      | nil => exact Cur.cons _ (peculiarIdentifier_err (map_some_err h))
+      | cons nc cs2 =>
+        simp only at h
+        split at h
+        · exact Cur.cons _ (number_err (map_some_err h))
+        · exact Cur.cons _ (peculiarIdentifier_err (map_some_err h))
+    rw [if_neg h8] at h
+    by_cases h9 : c = '"'
+    · rw [if_pos h9] at h
+      exact Cur.cons _ (string_error (map_some_err h))
+    rw [if_neg h9] at h
+    by_cases h10 : isDigit c = true
+    · rw [if_pos h10] at h
+      exact Cur.cons _ (number_err (map_some_err h))
+    rw [if_neg h10] at h
+    by_cases h11 : c = '|'
+    · rw [if_pos h11] at h
+      exact Cur.cons _ (quotedIdentifier_err (map_some_err h))
+    rw [if_neg h11] at h
+    exact Cur.cons _ (normalIdentifier_err (map_some_err h))
+
+theorem next_err {cs p e} (h : next cs p = .error e) : Cur cs p e := by
+  unfold next at h
+  obtain ⟨a, h1, h2, -⟩ := skipAtmosphere_inv false cs p
+  generalize skipAtmosphere false cs p = r at *
+  obtain ⟨cs1, p1⟩ := r
+  simp only at h h1 h2
+  exact Cur.used ⟨h1, h2⟩ (token_err h)
+
+/-- the cursors of a token list: each token's position is reached after a further non-empty chunk
+of the text -/
+def TokCursors : List Char → Lex.Pos → List LToken → Prop
+  | _, _, [] => True
+  | cs, p, t :: ts => ∃ pre rest, pre ≠ [] ∧ cs = pre ++ rest ∧ t.loc = some (advs pre p) ∧
+      TokCursors rest (advs pre p) ts
+
+theorem allAux_cursors : ∀ (fuel : Nat) (cs : List Char) (p : Lex.Pos) (acc ts : List LToken) (e : Option LexErr),
+    allAux fuel cs p acc = (ts, e) →
+    ∃ new, ts = acc.reverse ++ new ∧ TokCursors cs p new ∧ ∀ pe, e = some pe → Cur cs p pe
+  | 0, cs, p, acc, ts, e, h => by
+    simp only [allAux, Prod.mk.injEq] at h
+    obtain ⟨rfl, rfl⟩ := h
+    exact ⟨[], by simp, trivial, by simp⟩
+  | fuel + 1, cs, p, acc, ts, e, h => by
+    rw [allAux] at h
+    split at h
+    · rename_i e' hn
+      simp only [Prod.mk.injEq] at h
+      obtain ⟨rfl, rfl⟩ := h
+      exact ⟨[], by simp, trivial, fun pe hpe => by cases hpe; exact next_err hn⟩
+    · simp only [Prod.mk.injEq] at h
+      obtain ⟨rfl, rfl⟩ := h
+      exact ⟨[], by simp, trivial, by simp⟩
+    · rename_i t cs1 p1 hn
+      obtain ⟨a, used, h1, h2, -, hshape⟩ := next_inv hn
+      obtain ⟨new, hts, hc, he⟩ := allAux_cursors fuel cs1 p1 _ ts e h
+      have hne : a ++ used ≠ [] := by
+        have := hshape.ne_nil
+        simp [this]
+      have hp1 : p1 = advs (a ++ used) p := by rw [h2, advs_append]
+      refine ⟨⟨t, some p1⟩ :: new, by simp [hts], ⟨a ++ used, cs1, hne, by simp [h1], by simp [hp1], ?_⟩, ?_⟩
+      · rw [← hp1]; exact hc
+      · intro pe hpe
+        exact Cur.used (used := a ++ used) ⟨by simp [h1], hp1⟩ (he pe hpe)
+
+/-- every token's cursor is the cursor after a non-empty prefix of the text -/
+theorem TokCursors.mem : ∀ {cs p ts}, TokCursors cs p ts → ∀ t ∈ ts,
+    ∃ pre, pre ≠ [] ∧ pre <+: cs ∧ t.loc = some (advs pre p)
+  | cs, p, t :: ts, h, t', ht' => by
+    obtain ⟨pre, rest, hne, hcs, hl, hrest⟩ := h
+    rcases List.mem_cons.1 ht' with rfl | ht'
+    · exact ⟨pre, hne, by simp [hcs], hl⟩
+    · obtain ⟨pre', hne', hp', hl'⟩ := TokCursors.mem hrest t' ht'
+      refine ⟨pre ++ pre', by simp [hne], ?_, by rw [hl', advs_append]⟩
+      rw [hcs]; exact (List.prefix_append_right_inj pre).2 hp'
+
+end LexLoc
+
+/-! ## whole programs -/
+
+namespace ProgLoc
+open Interp ReadLoc LexLoc InterpLoc Text
+
+theorem nextDatum_steps {s s' : Read.PState} {od : Option Datum} (h : Read.nextDatum s = .ok (od, s')) :
+    ∃ used, Steps s s' used ∧ here s' ⊆ here s ++ tokLocs used ∧
+      ∀ d, od = some d → d.locs ⊆ tokLocs used := by
+  unfold Read.nextDatum at h
+  cases ha : Read.advance s with
+  | error e => simp [ha, bind, Except.bind] at h
+  | ok s1 =>
+    simp only [ha, bind, Except.bind] at h
+    obtain ⟨u1, hs1, hh1, -⟩ := advance_ok ha
+    obtain ⟨u2, hs2, hd⟩ := (readAt _).cur_ok _ _ _ h
+    refine ⟨u1 ++ u2, hs1.trans hs2, (hs1.trans hs2).here, fun d hd' => ?_⟩
+    have := hd d hd'
+    sub_tac
+
+/-- all tokens of a text with the cursor after them, and the lexer error: cursors inside the text -/
+theorem all_cursors (cs : List Char) :
+    TokCursors cs (1, 1) (Lex.all cs).1 ∧ ∀ pe, (Lex.all cs).2 = some pe → Cur cs (1, 1) pe := by
+  unfold Lex.all
+  generalize hr : Lex.allAux (cs.length + 1) cs (1, 1) [] = r
+  obtain ⟨ts, e⟩ := r
+  obtain ⟨new, hts, hc, he⟩ := allAux_cursors (cs.length + 1) cs (1, 1) [] ts e hr
+  simp only [List.reverse_nil, List.nil_append] at hts
+  subst hts; exact ⟨hc, he⟩
+
+/-- every position the reader can ever hold or report for the text is a cursor inside the text -/
+theorem text_positions (cs : List Char) (l : Pos)
+    (h : l ∈ tokLocs (Lex.all cs).1 ++ (Lex.all cs).2.toList) : Cur cs (1, 1) l := by
+  obtain ⟨hc, he⟩ := all_cursors cs
+  rcases List.mem_append.1 h with h | h
+  · simp only [tokLocs, List.mem_flatMap] at h
+    obtain ⟨t, ht, hl⟩ := h
+    obtain ⟨pre, -, hp, hloc⟩ := hc.mem t ht
+    rw [hloc] at hl
+    simp only [Option.toList_some, List.mem_singleton] at hl
+    exact ⟨pre, hp, hl⟩
+  · exact he l (by simpa using h)
+
+/-- `Interpreter::eval` form by form: a reported position is a position the reader holds, a position
+of the code already in the state, the position of a token still to be read, or the lexer's error
+position — or the error arose while reading a library source -/
+theorem evalText_go_loc (fuel : Nat) : ∀ (n : Nat) (s : Read.PState) (st : State) (last : Option Value)
+    (r : Except SErr (Option Value)) (st' : State),
+    evalText.go fuel n s st last = (r, st') → ∀ k l, r = .error (k, some l) →
+      l ∈ here s ++ (unrole st.rlocs ++ (tokLocs s.toks ++ s.lexErr.toList)) ∨ LibReadErr (k, some l)
+  | 0, s, st, last, r, st', h, k, l, hr => by
+    rw [evalText.go] at h; cases h; cases hr
+  | n + 1, s, st, last, r, st', h, k, l, hr => by
+    rw [evalText.go] at h
+    split at h
+    · rename_i e he
+      cases h; cases hr
+      have := nextDatum_err he (a := l) (by simp)
+      left
+      simp only [errs, List.mem_append] at this ⊢
+      rcases this with h | h | h
+      · exact Or.inl h
+      · exact Or.inr (Or.inr (Or.inl h))
+      · exact Or.inr (Or.inr (Or.inr h))
+    · cases h; cases hr
+    · rename_i d s' hd
+      obtain ⟨used, hs, hh, hdl⟩ := nextDatum_steps hd
+      have hdl := hdl d rfl
+      have hused : tokLocs used ⊆ tokLocs s.toks := by
+        rw [hs.toks, tokLocs_append]; exact List.subset_append_left _ _
+      split at h
+      · rename_i e syn hx
+        cases h; cases hr
+        have := ((XformLoc.toStatement_locs (fuel := Xform.xformFuel d) (d := d) (env := st.syn)).2 _
+          (by rw [hx])) (a := l) (by simp)
+        left
+        simp only [List.mem_append]
+        exact Or.inr (Or.inr (Or.inl (hused (hdl this))))
+      · rename_i stmt syn hx
+        have hlocs := (XformLoc.toStatement_locs (fuel := Xform.xformFuel d) (d := d) (env := st.syn)).1 _
+          (by rw [hx])
+        split at h
+        · rename_i e st1 hev
+          cases h; cases hr
+          have i := evalAst_in (T := st.rlocs ++ stmt.rlocs) factoryOfText_clean hev
+            (stIn_iff.2 (List.subset_append_left _ _)) (List.subset_append_right _ _)
+          obtain ⟨loc0, hk, hloc⟩ := i.2 k (some l) rfl
+          have key : ∀ r, (r, l) ∈ st.rlocs ++ stmt.rlocs →
+              l ∈ here s ++ (unrole st.rlocs ++ (tokLocs s.toks ++ s.lexErr.toList)) := by
+            intro r hr
+            simp only [List.mem_append]
+            rcases List.mem_append.1 hr with hr | hr
+            · exact Or.inr (Or.inl (mem_unrole.2 ⟨r, hr⟩))
+            · exact Or.inr (Or.inr (Or.inl (hused (hdl (hlocs (mem_unrole.2 ⟨r, hr⟩))))))
+          cases loc0 with
+          | none =>
+            left
+            have hsl : stmt.loc = some l := by
+              cases hsl : stmt.loc with
+              | none => simp [hsl] at hloc
+              | some p => simp [hsl] at hloc; rw [hloc]
+            exact key .node (List.mem_append_right _ (Statement.loc_rlocs stmt (by simp [hsl, Loc.as])))
+          | some l0 =>
+            have : l0 = l := by simpa using hloc.symm
+            subst this
+            rcases hk l0 rfl with ⟨-, h | h⟩ | ⟨-, h⟩ | ⟨-, h⟩ | h
+            · exact Or.inl (key _ h)
+            · exact Or.inl (key _ h)
+            · exact Or.inl (key _ h)
+            · exact Or.inl (key _ h)
+            · exact Or.inr h
+        · rename_i v st1 hev
+          have i := evalAst_in (T := st.rlocs ++ stmt.rlocs) factoryOfText_clean hev
+            (stIn_iff.2 (List.subset_append_left _ _)) (List.subset_append_right _ _)
+          rcases evalText_go_loc fuel n s' st1 v r st' h k l hr with h | h
+          · left
+            have h1 := stIn_iff.1 i.1
+            simp only [List.mem_append] at h ⊢
+            rcases h with h | h | h | h
+            · rcases List.mem_append.1 (hh h) with h | h
+              · exact Or.inl h
+              · exact Or.inr (Or.inr (Or.inl (hused h)))
+            · obtain ⟨r', hr'⟩ := mem_unrole.1 h
+              rcases List.mem_append.1 (h1 hr') with h | h
+              · exact Or.inr (Or.inl (mem_unrole.2 ⟨r', h⟩))
+              · exact Or.inr (Or.inr (Or.inl (hused (hdl (hlocs (mem_unrole.2 ⟨r', h⟩))))))
+            · right; right; left; rw [hs.toks, tokLocs_append]; exact List.mem_append_right _ h
+            · right; right; right; rw [← hs.lexErr]; exact h
+          · exact Or.inr h
+
+/-- `Interpreter::eval` on a program text: every reported position is a position of the code the
+state held before (none for an interpreter that has only loaded libraries), or the cursor reached
+after some prefix of the program text — never beyond the end of the file —, or the error arose
+while reading a library source. -/
+theorem evalText_loc {fuel : Nat} {st st' : State} {text : List Char} {k : Err} {l : Pos}
+    (h : evalText fuel st text = (.error (k, some l), st')) :
+    l ∈ unrole st.rlocs ∨ Cur text (1, 1) l ∨ LibReadErr (k, some l) := by
+  unfold evalText at h
+  rcases evalText_go_loc fuel _ _ _ _ _ _ h k l rfl with h | h
+  · simp only [List.mem_append] at h
+    rcases h with h | h | h
+    · simp [here, Read.ofText] at h
+    · exact Or.inl h
+    · exact Or.inr (Or.inl (text_positions text l (by simpa [Read.ofText] using h)))
+  · exact Or.inr (Or.inr h)
+
+/-- the factory list of `Interpreter::default()` with the two bundled texts abstracted -/
+theorem default_factories (withHost : Bool) : ∃ (b w : String), (default_ withHost).factories =
+    [(libRuschmBase, .native nativeBase), (libRuschmWrite, .native nativeWrite)]
+      ++ (match factoryOfText libSchemeBase b with | .ok f => [(libSchemeBase, f)] | .error _ => [])
+      ++ (match factoryOfText libSchemeWrite w with | .ok f => [(libSchemeWrite, f)] | .error _ => [])
+      ++ (if withHost then [(libVerifHost, .native nativeHost)] else []) := by
+  refine ⟨Gen.baseLibText, Gen.writeLibText, ?_⟩
+  unfold default_
+  generalize Gen.baseLibText = b
+  generalize Gen.writeLibText = w
+  rfl
+
+theorem default_store (withHost : Bool) :
+    (default_ withHost).store.frames = #[{ parent := none, defs := [] }] ∧
+    (default_ withHost).store.vecs = #[] ∧ (default_ withHost).instances = [] := by
+  unfold default_
+  generalize Gen.baseLibText = b
+  generalize Gen.writeLibText = w
+  exact ⟨rfl, rfl, rfl⟩
+
+theorem default_unlocated (withHost : Bool) : (default_ withHost).rlocs = [] := by
+  apply unrole_eq_nil
+  have : StIn [] (default_ withHost) := by
+    refine ⟨⟨?_, ?_⟩, ?_, ?_⟩
+    · intro i f hf kv hkv
+      have hfr := (default_store withHost).1
+      rw [hfr] at hf
+      have : f = { parent := none, defs := [] } := by
+        rcases i with _ | i <;> simp at hf
+        exact hf.symm
+      subst this; simp at hkv
+    · intro i c hc
+      have hv := (default_store withHost).2.1
+      rw [hv] at hc; simp at hc
+    · intro p hp
+      have hi := (default_store withHost).2.2
+      rw [hi] at hp; simp at hp
+    · intro p hp
+      obtain ⟨b, w, hfac⟩ := default_factories withHost
+      rw [hfac] at hp
+      simp only [List.mem_append, List.mem_cons, List.not_mem_nil, or_false] at hp
+      have hnat : ∀ (bs : List Builtin) (f : Builtin → String),
+          (Factory.native (bs.map (fun b => (f b, .builtin b)))).rlocs ⊆ [] := by
+        intro bs f x hx
+        simp only [Factory.rlocs, List.mem_flatMap, List.mem_map] at hx
+        obtain ⟨kv, ⟨b, -, rfl⟩, hx⟩ := hx
+        simp [Value.rlocs] at hx
+      have hmk : ∀ n t, ∀ p ∈ (match factoryOfText n t with | .ok f => [(n, f)] | .error _ => []),
+          p.2.rlocs ⊆ [] := by
+        intro n t p hp
+        split at hp
+        · rename_i f hf
+          simp only [List.mem_singleton] at hp; subst hp
+          rw [factoryOfText_clean n t f hf]; simp
+        · simp at hp
+      rcases hp with (((rfl | rfl) | hp) | hp) | hp
+      · exact hnat Builtin.baseList Builtin.name
+      · intro x hx; simp [Factory.rlocs, nativeWrite, Value.rlocs] at hx
+      · exact hmk _ _ p hp
+      · exact hmk _ _ p hp
+      · split at hp
+        · simp only [List.mem_singleton] at hp; subst hp
+          intro x hx; simp [Factory.rlocs, nativeHost, Value.rlocs] at hx
+        · simp at hp
+  intro l hl
+  exact absurd (stIn_iff.1 this (mem_unrole.1 hl).choose_spec) (by simp)
+
+/-- an interpreter that has loaded the standard library holds no position at all -/
+theorem withStdlib_unlocated (fuel : Nat) (withHost : Bool) : (withStdlib fuel withHost).rlocs = [] := by
+  apply unrole_eq_nil
+  unfold withStdlib
+  have h0 : StIn [] (default_ withHost) := stIn_iff.2 (by rw [default_unlocated]; simp)
+  have i := (interpAt (T := []) factoryOfText_clean fuel).import_
+    (st := default_ withHost) (sets := [.direct libSchemeBase none, .direct libSchemeWrite none])
+    (ρ := (default_ withHost).env) (r := _) (st' := _) rfl h0
+    (by simp [ImportSet.rlocsList, ImportSet.locs])
+  exact unrole_subset (stIn_iff.1 i.1)
+
+end ProgLoc
 
 end Ruschm
